@@ -204,3 +204,13 @@ reg('C32', engine='pysym',
          'injective in the two CRC values; violations found (NUL inside a component, list/tuple, True/1) are known findings.',
     note='Trusted: pysym/SymStr/Tok proxies, CRC32 uninterpreted. Bounded shapes; int leaves from a fixed set.',
     technique='symbolic execution of the real Python functions via proxy strings, SMT (z3)')
+
+reg('C26', engine='pysym + llsym',
+    text='Rely/guarantee: the real FFI.init_once (Python, via proxies) and ffi_init_once (C, LLVM IR) are executed for ONE '
+         'thread while the shared per-tag state is moved, at every yield point, to any state the rely condition allows '
+         '(solver-forked); the thread\'s own writes are proved to be rely steps (guarantee), so the per-thread obligations '
+         '(f only under the tag lock and never after a completion, result returned == published, exception propagates and '
+         'caches nothing, lock released on every path) hold for any number of threads and any schedule.',
+    note='Trusted: the rely condition printed in the evidence, atomicity of dict/lock primitives, lock fairness for '
+         'termination. One tag; tags with re-entrant __eq__ not covered.',
+    technique='rely/guarantee symbolic execution of one thread against a havocking environment, SMT-guided path forking (z3)')
